@@ -286,3 +286,7 @@ for _p in ('C06', 'C07', 'C17'):
         " Known finding F14 (known_findings.txt, replayed on every run, printed as KNOWN-FINDING): on inputs whose documented operator is identically zero the "
         "chain-based constructors raise a bare AssertionError instead of returning the zero operator; the totality theorems characterise exactly this "
         "(returns iff some term is non-zero). Every non-zero operator is covered as stated.")
+CHECKS['C15']['text'] = CHECKS['C15']['text'] + (
+    " Known finding F15 (known_findings.txt, replayed on every run, printed as KNOWN-FINDING): in floating point the clause 'lowest Ritz value = smallest "
+    "reachable eigenvalue' fails when numiter exceeds the Krylov dimension and the map has norm >~ 10 (rounding noise passes the absolute breakdown test); "
+    "proved in exact arithmetic (ritz_exact_full), demanded by the search whenever the breakdown was detected.")
